@@ -58,6 +58,8 @@ def analyse(facts, tier):
     from . import c03
     res = e2prog.analyse_program(facts)
     o5 = c03.index_obligations(facts, res, 'C02.R5', 'C02.R5', lambda f: f == 'src/opnmidi_opn2.cpp')
+    # ... and of the instrument API ("every instrument written through the instrument API"): the slot index of get / setInstrument
+    o5 += [o for o in c03.index_obligations(facts, res, 'C02.R5', 'C02.R5', lambda f: f == 'src/opnmidi.cpp') if 'Instrument' in (o.fn or '')]
     if len(o5) < 10:
         raise build.AnalysisBroken('C02.R5: only %d index obligations in the chip layer' % len(o5))
     obls += o5
